@@ -96,6 +96,7 @@ Definition show_node (o : option node) : string :=
   match o with
   | None => "null"
   | Some (NFile c g) => show_obj [("f", show_str c); ("gen", show_N g)]
+  | Some (NBin g) => show_obj [("bin", show_N g)]
   | Some (NLink t) => show_obj [("l", show_N t)]
   | Some NDir => show_string "dir"
   end.
